@@ -46,6 +46,18 @@ def run_verus(mirror_path, modules=None, rlimit=None, threads=16, extra=None, ti
     return dict(cmd=' '.join(cmd), rc=p.returncode, wall=wall, diags=diags, raw=raw, result=res, stdout=p.stdout)
 
 
+def span_lines(spans):
+    """line numbers of the spans and of the macro call sites they expand from (debug_assert! -> assert! -> panic!: the innermost span is
+    in the prelude, the call site is at the end of the expansion chain)"""
+    out = []
+    for sp in spans:
+        cur = sp
+        while cur:
+            out.append(cur['line_start'])
+            cur = (cur.get('expansion') or {}).get('span')
+    return out
+
+
 UNDECIDED_PAT = re.compile(r'rlimit|resource limit|timed? ?out|could not finish|incomplete', re.I)
 
 
@@ -71,10 +83,10 @@ def classify(b, vr):
         fn = b.fn_at(pl)
         if fn is None:
             # the primary span can sit in the prelude (e.g. the `requires false` of the panic path of debug_assert!): the call site decides
-            for sp in spans:
-                g = b.fn_at(sp['line_start'])
+            for ln in span_lines(spans):
+                g = b.fn_at(ln)
                 if g is not None:
-                    fn, pl = g, sp['line_start']
+                    fn, pl = g, ln
                     break
         rec = dict(message=msg, mirror_line=pl, fn=(fn['key'] if fn else None), instance=(fn['instance'] if fn else None),
                    rendered=d.get('rendered', ''), spans=[])
